@@ -28,6 +28,14 @@
 (*    (size < len(rawKey)+7) but a value byte would fit                    *)
 (*    (size >= len(rawKey)+3) the property fixes no outcome: the spec      *)
 (*    allows a chunk or a pure TooSmall (mid-batch only).                  *)
+(*                                                                         *)
+(* Splits of a value into writes include EMPTY parts: Write(0) before,     *)
+(* between and after the non-empty parts.  A write of 0 bytes is a         *)
+(* stuttering step of the written stream (PWrite(ps, 0) = ps): it must not *)
+(* end, cut or fail the value on either kind of pipe.  The same on the     *)
+(* reassembly side: WriteChunk with an empty value next to the chunks of   *)
+(* the same key (FeedEmpty) adds nothing and ends nothing.  After Close    *)
+(* every further call of the writer fails and changes nothing (WLate).     *)
 (***************************************************************************)
 EXTENDS Integers, Sequences, FiniteSets, TLC
 
@@ -39,7 +47,11 @@ CONSTANTS
     TailLens,   \* value lengths of the second and third message
     Spans,      \* how many full chunks precede the last chunk of the first message (subset of 0..1)
     YieldSets,  \* yield placements: sets of positions 0..N (before message i+1; N = before Close)
-    SplitKinds, \* how the first value is split into writes (subset of 0..6, see SplitOf)
+    SplitKinds, \* how the first value is split into writes (subset of 0..27, see SplitOf:
+                \* kind = base + 7 * z; base 0..6 the non-empty parts, z 0..3 where empty writes go)
+    TailSplitKinds, \* the same for the value of the second message
+    LateKinds,  \* what the writer still calls after Close (subset of 0..4, see LateSeq)
+    EmptyFeeds, \* BOOLEAN: the feeder also calls WriteChunk with empty values (FeedEmpty)
     Interleave  \* BOOLEAN: explore interleavings of writer and reader (else writer first)
 
 VARIABLES
@@ -95,6 +107,9 @@ WNext(k)  == ~wdone /\ pipes' = PNext(pipes, k) /\ UNCHANGED wdone
 WWrite(n) == ~wdone /\ CanWrite(pipes) /\ pipes' = PWrite(pipes, n) /\ UNCHANGED wdone
 WYield    == ~wdone /\ pipes' = PYield(pipes) /\ UNCHANGED wdone
 WClose    == ~wdone /\ pipes' = CloseLast(pipes) /\ wdone' = TRUE
+(* any call after Close (NextServiceInfo, Write, ForceNewMessage, Close):   *)
+(* io.ErrClosedPipe, nothing written, nothing handed over                   *)
+WLate     == wdone /\ UNCHANGED <<pipes, wdone>>
 
 ReaderUnch == UNCHANGED <<mtu, pos, budget, batch, sent, out, eof, fed, feedclosed, asm, taken, last>>
 
@@ -178,6 +193,20 @@ Feed ==
     /\ fed' = fed + 1
     /\ asm' = FeedOne(asm, out[fed + 1])
     /\ UNCHANGED <<mtu, pipes, wdone, pos, budget, batch, sent, out, eof, feedclosed, taken, last, script, pc>>
+
+(* WriteChunk(key, empty value) before, between or after the chunks of a    *)
+(* message: allowed for the key of the chunk that comes next, or for the    *)
+(* key being streamed.  It opens the reassembly pipe of a new key (as the   *)
+(* first non-empty chunk would) and adds no bytes.                          *)
+CanFeedEmpty(k) ==
+    /\ ~feedclosed
+    /\ \/ fed < Len(out) /\ k = out[fed + 1].key
+       \/ fed > 0 /\ k = out[fed].key /\ Len(asm) > 0 /\ asm[Len(asm)].key = k
+FeedEmpty(k) ==
+    /\ CanFeedEmpty(k)
+    /\ asm' = IF Len(asm) > 0 /\ asm[Len(asm)].key = k THEN asm
+              ELSE Append(asm, [key |-> k, n |-> 0, i |-> out[fed + 1].i, off |-> out[fed + 1].off])
+    /\ UNCHANGED <<mtu, pipes, wdone, pos, budget, batch, sent, out, eof, fed, feedclosed, taken, last, script, pc>>
 
 FeedClose ==
     /\ eof /\ fed = Len(out) /\ ~feedclosed
@@ -267,8 +296,8 @@ OpWrite(n)  == [op |-> "write", key |-> NoKey, n |-> n]
 LenFor(bud, k, rem) ==
     {n \in {bud - rem - 1 - RawKeyLen(k) - h : h \in 1..3} : n >= 1 /\ KVSize(k, n) = bud - rem}
 
-(* splits of a value of n bytes into at most three writes                   *)
-SplitOf(n, kind) ==
+(* splits of a value of n bytes into at most three non-empty writes ...      *)
+BaseSplit(n, kind) ==
     CASE kind = 0 \/ n < 2 -> <<n>>
       [] kind = 1 -> <<1, n - 1>>
       [] kind = 2 -> <<n - 1, 1>>
@@ -277,6 +306,13 @@ SplitOf(n, kind) ==
       [] kind = 5 /\ n >= 3 -> <<n - 2, 1, 1>>
       [] kind = 6 /\ n >= 3 -> <<n \div 3, n \div 3, n - 2 * (n \div 3)>>
       [] OTHER -> <<n>>
+(* ... with empty writes: z = 1 one before every part, z = 2 one after every *)
+(* part, z = 3 before every part and after the last one                     *)
+RECURSIVE ZeroMix(_, _, _)
+ZeroMix(sp, z, j) ==
+    IF j > Len(sp) THEN (IF z = 3 THEN <<0>> ELSE <<>>)
+    ELSE (CASE z = 1 \/ z = 3 -> <<0, sp[j]>> [] z = 2 -> <<sp[j], 0>> [] OTHER -> <<sp[j]>>) \o ZeroMix(sp, z, j + 1)
+SplitOf(n, kind) == ZeroMix(BaseSplit(n, kind % 7), kind \div 7, 1)
 Writes(sp) == [j \in 1..Len(sp) |-> OpWrite(sp[j])]
 
 RECURSIVE Render(_, _, _)
@@ -285,17 +321,30 @@ Render(msgs, ys, j) ==      \* msgs: sequence of [key, writes]; ys: yield positi
     ELSE (IF (j - 1) \in ys THEN <<Op("yield")>> ELSE <<>>)
          \o <<OpNext(msgs[j].key)>> \o Writes(msgs[j].writes) \o Render(msgs, ys, j + 1)
 
+(* calls after Close, by name; a late next names the key "a" of length 4    *)
+LateSeq(kind) ==
+    CASE kind = 1 -> <<"write">>
+      [] kind = 2 -> <<"close">>
+      [] kind = 3 -> <<"write", "close", "next", "yield">>
+      [] kind = 4 -> <<"next", "write", "close">>
+      [] OTHER -> <<>>
+LateOps(names) == [j \in 1..Len(names) |->
+    CASE names[j] = "next"  -> OpNext(Key("a", 4))
+      [] names[j] = "write" -> OpWrite(1)
+      [] OTHER -> Op(names[j])]
+
 Scripts(m) ==
     UNION { UNION { UNION {
-      { Render(<<[key |-> k1, writes |-> SplitOf(n1 + sp * Room(k1, m), sk)]>> \o tail, ys, 1) :
-          ys \in {y \in YieldSets : \A p \in y : p <= 1 + Len(tail)} }
+      { Render(<<[key |-> k1, writes |-> SplitOf(n1 + sp * Room(k1, m), sk)]>> \o tail, ys, 1) \o LateOps(LateSeq(late)) :
+          ys \in {y \in YieldSets : \A p \in y : p <= 1 + Len(tail)}, late \in LateKinds }
         : tail \in {<<>>}
             \cup (IF MaxMsgs >= 2 THEN
-                    {<<[key |-> Key(id2, l2), writes |-> <<t2>>]>> : id2 \in {"a", "b"}, l2 \in KeyLens, t2 \in TailLens}
+                    {<<[key |-> Key(id2, l2), writes |-> SplitOf(t2, sk2)]>> :
+                        id2 \in {"a", "b"}, l2 \in KeyLens, t2 \in TailLens, sk2 \in TailSplitKinds}
                   ELSE {})
             \cup (IF MaxMsgs >= 3 THEN
-                    {<<[key |-> Key("b", l2), writes |-> <<t2>>], [key |-> Key(id3, 4), writes |-> <<2>>]>> :
-                        l2 \in KeyLens, t2 \in TailLens, id3 \in {"b", "c"}}
+                    {<<[key |-> Key("b", l2), writes |-> SplitOf(t2, sk2)], [key |-> Key(id3, 4), writes |-> <<2>>]>> :
+                        l2 \in KeyLens, t2 \in TailLens, sk2 \in TailSplitKinds, id3 \in {"b", "c"}}
                   ELSE {}) }
       : n1 \in LenFor(m, k1, rem), sp \in Spans, sk \in SplitKinds }
       : k1 \in {Key("a", l) : l \in KeyLens}, rem \in Rems }
@@ -303,7 +352,7 @@ Scripts(m) ==
 (* the whole script at once (writer first)                                  *)
 RECURSIVE RunScript(_, _, _)
 RunScript(s, j, ps) ==
-    IF j > Len(s) THEN ps
+    IF j > Len(s) \/ (j > 1 /\ s[j - 1].op = "close") THEN ps        \* what follows Close changes nothing
     ELSE LET o == s[j] IN
          RunScript(s, j + 1, CASE o.op = "next"  -> PNext(ps, o.key)
                                [] o.op = "write" -> PWrite(ps, o.n)
@@ -328,10 +377,11 @@ Init == \E m \in MTUs : \E s \in Scripts(m) : InitWith(m, s)
 WriterStep ==
     /\ pc <= Len(script)
     /\ LET o == script[pc] IN
-         CASE o.op = "next"  -> WNext(o.key)
-           [] o.op = "write" -> WWrite(o.n)
-           [] o.op = "yield" -> WYield
-           [] o.op = "close" -> WClose
+         CASE wdone -> WLate
+           [] ~wdone /\ o.op = "next"  -> WNext(o.key)
+           [] ~wdone /\ o.op = "write" -> WWrite(o.n)
+           [] ~wdone /\ o.op = "yield" -> WYield
+           [] ~wdone /\ o.op = "close" -> WClose
     /\ pc' = pc + 1
     /\ ReaderUnch /\ UNCHANGED script
 
@@ -343,6 +393,7 @@ Next ==
     \/ WriterStep
     \/ (Interleave \/ WriterDone) /\ ReadStep
     \/ (Interleave \/ eof) /\ Feed
+    \/ (Interleave \/ eof) /\ EmptyFeeds /\ (\E k \in {out[j].key : j \in 1..Len(out)} : FeedEmpty(k))
     \/ FeedClose
     \/ (Interleave \/ feedclosed) /\ Unchunk
 
